@@ -10,7 +10,7 @@ from . import core, cxx
 from .runtime_checks import fixed_models, known_h
 
 YIELDS = 'log/api/Select log/api/Deselect handler/user lock'
-SETUP = ['construct 111', 'register A', 'register B', 'bind * * -', 'bind * * A', 'bind * * B', 'final',
+SETUP = ['construct 111', 'register A', 'register B', 'register C', 'bind * * -', 'bind * * A', 'bind * * B', 'bind * * C', 'final',
          'arbiter api Acquire Free 1 0', 'yielding 1 ' + YIELDS]
 
 
@@ -266,6 +266,34 @@ def check_c11(tier, seed):
                           {'schedule': [f'{h["a"]}({h["c"]})' for h in case['hist']], 'cfg': cfg, 'decls': decls})
     else:
         dname, safety_cfgs, classify_cfg, strict_hits, maximal, keys = chosen
+    if chosen is not None and dname == 'shipped' and tier == 'thorough':
+        # three clients, one cycle each: every schedule of the state cover
+        res3 = chk.tlc('MultiClientConc', 'MultiClientConc_replay3.cfg', timeout=1200)
+        cases3 = res3.emitted()
+        pref3 = set()
+        for c in cases3:
+            for k in range(1, len(c['hist'])):
+                pref3.add(json.dumps(c['hist'][:k]))
+        max3 = [c for c in cases3 if json.dumps(c['hist']) not in pref3]
+        nbad3 = [0]
+
+        def guarded3(case):
+            if nbad3[0] >= 8:
+                return [], []
+            out = replay((prog, case))
+            if out[0]:
+                nbad3[0] += 1
+            return out
+        with ThreadPoolExecutor(max_workers=min(core.NCPU, 10)) as pool:
+            for case, (bad, strict) in zip(max3, pool.map(guarded3, max3)):
+                chk.count(('schedule3', json.dumps(case['hist'])))
+                chk.traces += 1
+                strict_hits.extend((case, hit) for hit in strict[:1])
+                if bad and nbad3[0] <= 8:
+                    clause, exp, got = bad[0]
+                    chk.violation(f'three-client schedule replayed on real threads: {clause}: model expects {str(exp)[:200]}, observed {str(got)[:300]}',
+                                  {'schedule': [f'{h["a"]}({h["c"]})' for h in case['hist']], 'cfg': cfg, 'decls': decls})
+        chk.extra['three_client_schedules_replayed'] = len(max3)
     chk.extra['design_the_code_conforms_to'] = dname if chosen else 'none (violations reported against the shipped design)'
     chk.sample({'schedule': [f'{h["a"]}({h["c"]})' for h in maximal[len(maximal) // 2]['hist']]})
     chk.extra['model_states'] = len(keys)
